@@ -554,6 +554,31 @@ Proof.
   rewrite no_last_app_false in Hn. discriminate.
 Qed.
 
+(* everything above, instantiated with the setters kustomize really passes to the filter: no hypothesis left *)
+Lemma core_total_summary :
+  (forall nonstr ck ct name v keep create path obj,
+      let r := fs_filter ck ct (set_field nonstr name v keep) create path obj in r <> Panic /\ r <> Diverge) /\
+  (forall ck ct v create path obj,
+      let r := fs_filter ck ct (set_scalar v) create path obj in r <> Panic /\ r <> Diverge) /\
+  (forall nonstr ck ct name v keep l obj,
+      let r := fsslice_apply ck ct (set_field nonstr name v keep) l obj in r <> Panic /\ r <> Diverge) /\
+  (forall ps n, lookup ps n <> Diverge /\ (no_last ps = true -> lookup ps n <> Panic)) /\
+  (forall leaf ps n, lookup_create leaf ps n <> Diverge /\ (no_last ps = true -> lookup_create leaf ps n <> Panic)).
+Proof.
+  repeat split.
+  - apply fs_filter_no_panic. intros n. apply set_field_total.
+  - apply fs_filter_no_diverge. intros n. apply set_field_total.
+  - apply fs_filter_no_panic. intros n. apply set_scalar_total.
+  - apply fs_filter_no_diverge. intros n. apply set_scalar_total.
+  - apply fsslice_apply_no_panic. intros n. apply set_field_total.
+  - apply fsslice_apply_no_diverge. intros n. apply set_field_total.
+  - apply lookup_never_diverges.
+  - intros Hn H. unfold lookup in H. apply bind_ok_panic in H. revert H.
+    apply walk_no_last_no_panic; auto. intros x. apply k_get_total.
+  - unfold lookup_create. apply walk_never_diverges. intros x. apply k_get_total.
+  - intros Hn. unfold lookup_create. apply walk_no_last_no_panic; auto. intros x. apply k_get_total.
+Qed.
+
 (* witnesses: the defect F7c *)
 Lemma last_on_empty_witness :
   exists n, lookup [PKey "a"; PLast] n = Panic.
